@@ -321,3 +321,406 @@ theorem link_rep (p : PList) (xs fs : List Nat) (f : Nat) (s : LState) (h : Rep 
     omega
 
 end Nstd.Seq.Ptr
+
+namespace Nstd.Seq.Ptr
+
+/-- allocating a block when the free list is empty -/
+theorem refill_rep (p : PList) (xs : List Nat) (s : LState) (h : Rep p xs [] s) :
+    Rep (refill p) xs [4 * p.nblocks + 4, 4 * p.nblocks + 3, 4 * p.nblocks + 2, 4 * p.nblocks + 1]
+      { s with free := [4 * s.nblocks + 3, 4 * s.nblocks + 2, 4 * s.nblocks + 1, 4 * s.nblocks],
+               nblocks := s.nblocks + 1 } := by
+  have hb : ∀ x ∈ xs, x ≤ 4 * p.nblocks := fun x hx => h.bound x (by simp [hx])
+  have prev_o : ∀ x, x ≤ 4 * p.nblocks → (refill p).prev x = p.prev x := by
+    intro x hx
+    simp only [refill]
+    rw [set_ne _ _ _ _ (by omega), set_ne _ _ _ _ (by omega), set_ne _ _ _ _ (by omega), set_ne _ _ _ _ (by omega)]
+  refine ⟨?_, ?_, ?_, ?_, ?_, ?_, ?_, ?_, ?_, ?_, ?_⟩
+  · exact seg_congr p _ xs 0 none (fun x hx => ⟨prev_o x (hb x hx), rfl⟩) h.seg
+  · rw [prev_o 0 (by omega)]; exact h.endp
+  · exact h.beg
+  · simp only [FreeChain, refill]
+    refine ⟨trivial, by omega, ?_, by omega, ?_, by omega, ?_, by omega, ?_⟩
+    · rw [set_same]
+    · rw [set_ne _ _ _ _ (by omega), set_same]
+    · rw [set_ne _ _ _ _ (by omega), set_ne _ _ _ _ (by omega), set_same]
+    · rw [set_ne _ _ _ _ (by omega), set_ne _ _ _ _ (by omega), set_ne _ _ _ _ (by omega), set_same]
+  · have nx : xs.Nodup := by simpa using h.nd
+    rw [List.nodup_append]
+    refine ⟨nx, by simp <;> omega, ?_⟩
+    intro a ha c hc
+    have := hb a ha
+    simp at hc
+    omega
+  · exact h.nodes
+  · simp [h.nb]
+  · simp [refill, h.nb]
+  · exact h.sz
+  · intro x hx
+    simp only [List.mem_append, List.mem_cons, List.not_mem_nil, or_false] at hx
+    show x ≤ 4 * (p.nblocks + 1)
+    rcases hx with hx | hx | hx | hx | hx
+    · have := hb x hx; omega
+    all_goals omega
+  · have := h.cnt
+    show (xs ++ _).length = 4 * (p.nblocks + 1)
+    simp at this ⊢; omega
+
+/-- `insert` on the heap does what `insertRaw` does on the chain model; the returned item is the
+    new node, which sits at position `k` of the new chain -/
+theorem insert_rep (p : PList) (xs fs : List Nat) (s : LState) (h : Rep p xs fs s)
+    (k : Nat) (hk : k ≤ xs.length) (v : Int) :
+    ∃ p' item fs', insert p ((xs.drop k).headD 0) v = some (p', item) ∧
+      Rep p' (xs.take k ++ item :: xs.drop k) fs' (s.insertRaw k v).1 ∧
+      (xs.take k ++ item :: xs.drop k)[k]? = some item := by
+  have getk : ∀ item, (xs.take k ++ item :: xs.drop k)[k]? = some item := by
+    intro item
+    have : (xs.take k).length = k := by simp; omega
+    rw [List.getElem?_append_right (by omega)]; simp [this]
+  cases fs with
+  | cons f fs' =>
+    have hfree : p.free = some f := h.fr.1
+    have hsfree : s.free = (f - 1) :: fs'.map (· - 1) := by rw [h.free]; rfl
+    refine ⟨link p f ((xs.drop k).headD 0) v, f, fs', ?_, ?_, getk f⟩
+    · simp [insert, hfree]
+    · have := link_rep p xs fs' f s h k hk v
+      have e : (s.insertRaw k v).1 =
+          { s with nodes := s.nodes.take k ++ (f - 1, v) :: s.nodes.drop k, free := s.free.tail } := by
+        simp [LState.insertRaw, LState.allocNode, hsfree]
+      rw [e]; exact this
+  | nil =>
+    have hfree : p.free = none := h.fr
+    have hsfree : s.free = [] := by rw [h.free]; rfl
+    have hr := refill_rep p xs s h
+    have := link_rep (refill p) xs _ (4 * p.nblocks + 4) _ hr k hk v
+    refine ⟨link (refill p) (4 * p.nblocks + 4) ((xs.drop k).headD 0) v, 4 * p.nblocks + 4,
+      [4 * p.nblocks + 3, 4 * p.nblocks + 2, 4 * p.nblocks + 1], ?_, ?_, getk _⟩
+    · simp [insert, hfree, refill]
+    · have e : (s.insertRaw k v).1 =
+          { s with nodes := s.nodes.take k ++ (4 * p.nblocks + 4 - 1, v) :: s.nodes.drop k,
+                   free := [4 * s.nblocks + 2, 4 * s.nblocks + 1, 4 * s.nblocks], nblocks := s.nblocks + 1 } := by
+        simp [LState.insertRaw, LState.allocNode, hsfree, h.nb]
+      rw [e]
+      simpa using this
+
+end Nstd.Seq.Ptr
+
+namespace Nstd.Seq.Ptr
+
+theorem nodup_remove_mid (a b fs : List Nat) (f : Nat) (h : (a ++ f :: b ++ fs).Nodup) :
+    (a ++ b ++ f :: fs).Nodup := by
+  have p : (a ++ f :: b ++ fs).Perm (a ++ b ++ f :: fs) := by
+    have h1 : (a ++ f :: b).Perm (f :: (a ++ b)) := List.perm_middle
+    have h2 : (a ++ b ++ f :: fs).Perm (f :: (a ++ b) ++ fs) := by
+      simpa using (List.perm_middle (a := f) (l₁ := a ++ b) (l₂ := fs))
+    exact (h1.append_right fs).trans h2.symm
+  exact p.nodup_iff.1 h
+
+/-- unlinking the item in the middle of `a ++ item :: b` -/
+theorem unlink_rep (p : PList) (a b fs : List Nat) (item : Nat) (s : LState)
+    (h : Rep p (a ++ item :: b) fs s) :
+    ∃ p', remove p item = some (p', b.headD 0) ∧
+      Rep p' (a ++ b) (item :: fs)
+        { s with nodes := s.nodes.take a.length ++ s.nodes.drop (a.length + 1), free := (item - 1) :: s.free } := by
+  have hnd : (a ++ item :: b ++ fs).Nodup := h.nd
+  have hseg := h.seg
+  rw [seg_append] at hseg
+  obtain ⟨sa, sb⟩ := hseg
+  obtain ⟨i_nz, i_prev, i_next, sb'⟩ := sb
+  simp only [List.headD_cons] at sa
+  have xs_nz : ∀ x ∈ a ++ item :: b, x ≠ 0 := seg_ne_zero p _ 0 none h.seg
+  have fs_nz : ∀ x ∈ fs, x ≠ 0 := freechain_ne_zero p fs _ h.fr
+  have nd_xs : (a ++ item :: b).Nodup := (List.nodup_append.1 hnd).1
+  have nd_a : a.Nodup := (List.nodup_append.1 nd_xs).1
+  have nd_ib : (item :: b).Nodup := (List.nodup_append.1 nd_xs).2.1
+  have i_notin_b : item ∉ b := (List.nodup_cons.1 nd_ib).1
+  have a_disj : ∀ x ∈ a, x ∉ item :: b := fun x hx hm => (List.nodup_append.1 nd_xs).2.2 x hx x hm rfl
+  have fs_disj : ∀ x ∈ fs, x ∉ a ++ item :: b := fun x hx hm => (List.nodup_append.1 hnd).2.2 x hm x hx rfl
+  have n_ne_i : b.headD 0 ≠ item := by
+    cases b with
+    | nil => exact fun e => i_nz e.symm
+    | cons y b' => intro e; apply i_notin_b; simp only [List.headD_cons] at e; rw [← e]; simp
+  refine ⟨unlink p item (b.headD 0), by simp only [remove, i_next], ?_⟩
+  generalize hp' : unlink p item (b.headD 0) = p'
+  unfold unlink at hp'
+  have prev_i : p'.prev item = p.free := by rw [← hp']; simp only; rw [set_same]
+  have prev_n : p'.prev (b.headD 0) = lastOr a none := by
+    rw [← hp']; simp only; rw [set_ne _ _ _ _ n_ne_i, set_same]; exact i_prev
+  have prev_o : ∀ x, x ≠ item → x ≠ b.headD 0 → p'.prev x = p.prev x := by
+    intro x h1 h2; rw [← hp']; simp only; rw [set_ne _ _ _ _ h1, set_ne _ _ _ _ h2]
+  have next_o : ∀ x, lastOr a none ≠ some x → p'.next x = p.next x := by
+    intro x h2
+    rw [← hp']; simp only; rw [i_prev]
+    cases hq : lastOr a none with
+    | none => rfl
+    | some q =>
+      simp only
+      rw [set_ne]
+      intro e; rw [hq, e] at h2; exact h2 rfl
+  have next_q : ∀ q, lastOr a none = some q → p'.next q = some (b.headD 0) := by
+    intro q hq
+    rw [← hp']; simp only; rw [i_prev, hq]; simp only; rw [set_same]
+  have not_last : ∀ x, x ∉ a → lastOr a none ≠ some x := by
+    intro x hx e
+    by_cases ea : a = []
+    · subst ea; simp [lastOr] at e
+    · obtain ⟨a', q, e'⟩ := exists_snoc a ea
+      subst e'
+      rw [lastOr_append] at e
+      simp only [lastOr] at e
+      injection e with e
+      exact hx (by rw [← e]; simp)
+  have b_notin_a : ∀ x ∈ b, x ∉ a := fun x hx hm => a_disj x hm (List.mem_cons_of_mem _ hx)
+  have seg_a : Seg p' none a (b.headD 0) := by
+    by_cases ea : a = []
+    · subst ea; trivial
+    · obtain ⟨a', q, e⟩ := exists_snoc a ea
+      subst e
+      have hl : lastOr (a' ++ [q]) none = some q := by rw [lastOr_append]; rfl
+      rw [seg_append] at sa ⊢
+      obtain ⟨s1, s2⟩ := sa
+      have q_notin : q ∉ a' := fun hm => (List.nodup_append.1 nd_a).2.2 q hm q (by simp) rfl
+      have ne_n : ∀ x ∈ a' ++ [q], x ≠ b.headD 0 := by
+        intro x hx
+        cases b with
+        | nil => exact xs_nz x (by simp at hx ⊢; rcases hx with hx | hx <;> simp [hx])
+        | cons y b' => intro e; exact a_disj x hx (by simp only [List.headD_cons] at e; rw [e]; simp)
+      have ne_i : ∀ x ∈ a' ++ [q], x ≠ item := fun x hx e => a_disj x hx (by rw [e]; simp)
+      refine ⟨seg_congr p _ a' q none ?_ s1, ?_⟩
+      · intro x hm
+        have hx : x ∈ a' ++ [q] := by simp [hm]
+        refine ⟨prev_o x (ne_i x hx) (ne_n x hx), next_o x ?_⟩
+        rw [hl]; intro e; injection e with e; exact q_notin (e ▸ hm)
+      · obtain ⟨t1, t2, _, _⟩ := s2
+        have hq : q ∈ a' ++ [q] := by simp
+        exact ⟨t1, by rw [prev_o q (ne_i q hq) (ne_n q hq)]; exact t2, by rw [next_q q hl]; rfl, trivial⟩
+  have seg_b : Seg p' (lastOr a none) b 0 := by
+    cases b with
+    | nil => trivial
+    | cons y b' =>
+      obtain ⟨t1, _, t3, t4⟩ := sb'
+      have nd_b : (y :: b').Nodup := (List.nodup_cons.1 nd_ib).2
+      refine ⟨t1, prev_n, by rw [next_o y (not_last y (b_notin_a y (by simp)))]; exact t3, ?_⟩
+      refine seg_congr p _ b' 0 (some y) ?_ t4
+      intro x hm
+      have x_ne_y : x ≠ y := fun e => (List.nodup_cons.1 nd_b).1 (e ▸ hm)
+      have x_ne_i : x ≠ item := fun e => i_notin_b (by rw [← e]; simp [hm])
+      exact ⟨prev_o x x_ne_i (by simpa using x_ne_y), next_o x (not_last x (b_notin_a x (by simp [hm])))⟩
+  have hval : p'.val = p.val := by rw [← hp']
+  refine ⟨?_, ?_, ?_, ?_, ?_, ?_, ?_, ?_, ?_, ?_, ?_⟩
+  · rw [seg_append]; exact ⟨seg_a, seg_b⟩
+  · rw [lastOr_append]
+    cases b with
+    | nil => simpa [lastOr] using prev_n
+    | cons y b' =>
+      have h0i : (0 : Nat) ≠ item := fun e => i_nz e.symm
+      have h0 : (0 : Nat) ≠ (y :: b').headD 0 := by
+        simp only [List.headD_cons]; exact fun e => xs_nz y (by simp) e.symm
+      rw [prev_o 0 h0i h0, h.endp, lastOr_append]
+      simp [lastOr]
+  · rw [← hp']; simp only [i_prev]
+    cases a with
+    | nil => simp [lastOr]
+    | cons x a' =>
+      have : ∃ q, lastOr (x :: a') none = some q := by
+        obtain ⟨a'', q, e⟩ := exists_snoc (x :: a') (by simp)
+        exact ⟨q, by rw [e, lastOr_append]; rfl⟩
+      obtain ⟨q, hq⟩ := this
+      rw [hq]; simp only
+      rw [h.beg]; rfl
+  · have hfree' : p'.free = some item := by rw [← hp']
+    rw [hfree']
+    refine ⟨rfl, i_nz, ?_⟩
+    rw [prev_i]
+    refine freechain_congr p _ fs _ ?_ h.fr
+    intro x hm
+    refine prev_o x (fun e => fs_disj x hm (by rw [e]; simp)) ?_
+    cases b with
+    | nil => exact fs_nz x hm
+    | cons y b' => intro e; exact fs_disj x hm (by simp only [List.headD_cons] at e; rw [e]; simp)
+  · exact nodup_remove_mid a b fs item hnd
+  · show s.nodes.take a.length ++ s.nodes.drop (a.length + 1) = _
+    rw [h.nodes, hval, ← List.map_take, ← List.map_drop]
+    simp
+  · show (item - 1) :: s.free = _
+    rw [h.free]; rfl
+  · rw [← hp']; exact h.nb
+  · rw [← hp']; show p.size - 1 = _
+    rw [h.sz]; simp
+  · intro x hm
+    have hn : p'.nblocks = p.nblocks := by rw [← hp']
+    rw [hn]
+    apply h.bound x
+    simp only [List.mem_append, List.mem_cons] at hm ⊢
+    rcases hm with (hm | hm) | hm | hm
+    · exact Or.inl (Or.inl hm)
+    · exact Or.inl (Or.inr (Or.inr hm))
+    · exact Or.inl (Or.inr (Or.inl hm))
+    · exact Or.inr hm
+  · have := h.cnt
+    have hn : p'.nblocks = p.nblocks := by rw [← hp']
+    rw [hn]
+    simp only [List.length_append, List.length_cons] at this ⊢
+    omega
+
+end Nstd.Seq.Ptr
+
+namespace Nstd.Seq.Ptr
+
+theorem walk_seg (p : PList) : ∀ (k : Nat) (xs : List Nat) (pr : Option Nat), Seg p pr xs 0 → k ≤ xs.length →
+    walk p (xs.headD 0) k = some ((xs.drop k).headD 0) := by
+  intro k
+  induction k with
+  | zero => intro xs pr _ _; rfl
+  | succ k ih =>
+    intro xs pr h hk
+    cases xs with
+    | nil => simp at hk
+    | cons x xs' =>
+      obtain ⟨_, _, h3, h4⟩ := h
+      simp only [List.headD_cons, walk, h3, List.drop_succ_cons]
+      exact ih xs' (some x) h4 (by simpa using hk)
+
+/-- the `next` links of the not yet visited part of the chain -/
+def NextLinks (p : PList) : List Nat → Prop
+  | [] => True
+  | x :: xs => x ≠ 0 ∧ p.next x = some (xs.headD 0) ∧ NextLinks p xs
+
+theorem nextlinks_of_seg (p : PList) : ∀ (xs : List Nat) (pr : Option Nat), Seg p pr xs 0 → NextLinks p xs := by
+  intro xs
+  induction xs with
+  | nil => intro _ _; trivial
+  | cons x xs ih => intro pr h; exact ⟨h.1, h.2.2.1, ih _ h.2.2.2⟩
+
+theorem nextlinks_congr (p p' : PList) (hn : p'.next = p.next) : ∀ (b : List Nat), NextLinks p b → NextLinks p' b := by
+  intro b
+  induction b with
+  | nil => intro _; trivial
+  | cons z b ih => intro h; exact ⟨h.1, by rw [hn]; exact h.2.1, ih h.2.2⟩
+
+theorem clearLoop_spec : ∀ (b : List Nat) (p : PList) (acc : List Nat) (fuel : Nat),
+    NextLinks p b → FreeChain p p.free acc → (b ++ acc).Nodup → b.length ≤ fuel →
+    ∃ p1, clearLoop p fuel (b.headD 0) = some p1 ∧ FreeChain p1 p1.free (b.reverse ++ acc) ∧
+      p1.val = p.val ∧ p1.nblocks = p.nblocks := by
+  intro b
+  induction b with
+  | nil =>
+    intro p acc fuel _ hf _ _
+    refine ⟨p, ?_, by simpa using hf, rfl, rfl⟩
+    cases fuel <;> rfl
+  | cons y b ih =>
+    intro p acc fuel hl hf hnd hfu
+    obtain ⟨y_nz, y_next, hl'⟩ := hl
+    cases fuel with
+    | zero => simp at hfu
+    | succ fuel =>
+      cases y with
+      | zero => exact absurd rfl y_nz
+      | succ i =>
+        have hnd' : (b ++ (i + 1) :: acc).Nodup := by
+          have p' : (b ++ (i + 1) :: acc).Perm ((i + 1) :: b ++ acc) := by
+            simpa using (List.perm_middle (a := i + 1) (l₁ := b) (l₂ := acc))
+          exact p'.nodup_iff.2 hnd
+        have y_notin_acc : (i + 1) ∉ acc := by
+          intro hm
+          exact (List.nodup_append.1 hnd).2.2 (i + 1) (by simp) (i + 1) hm rfl
+        have hf2 : FreeChain { p with prev := set p.prev (i + 1) p.free, free := some (i + 1) }
+            (some (i + 1)) ((i + 1) :: acc) := by
+          refine ⟨rfl, y_nz, ?_⟩
+          show FreeChain _ (set p.prev (i + 1) p.free (i + 1)) acc
+          rw [set_same]
+          refine freechain_congr p _ acc _ ?_ hf
+          intro x hx
+          show set p.prev (i + 1) p.free x = p.prev x
+          rw [set_ne]; intro e; exact y_notin_acc (e ▸ hx)
+        have hl2 : NextLinks { p with prev := set p.prev (i + 1) p.free, free := some (i + 1) } b :=
+          nextlinks_congr p { p with prev := set p.prev (i + 1) p.free, free := some (i + 1) } rfl b hl'
+        obtain ⟨p1, e1, e2, e3, e4⟩ := ih _ ((i + 1) :: acc) fuel hl2 hf2 hnd' (by simpa using hfu)
+        refine ⟨p1, ?_, ?_, e3, e4⟩
+        · simp only [List.headD_cons, clearLoop, y_next]; exact e1
+        · simpa using e2
+
+theorem clear_rep (p : PList) (xs fs : List Nat) (s : LState) (h : Rep p xs fs s) :
+    ∃ p', clear p = some p' ∧ Rep p' [] (xs.reverse ++ fs) s.clear := by
+  obtain ⟨p1, e1, e2, e3, e4⟩ := clearLoop_spec xs p fs p.size (nextlinks_of_seg p xs none h.seg) h.fr h.nd
+    (by rw [h.sz]; exact Nat.le_refl _)
+  rw [← h.beg] at e1
+  refine ⟨{ p1 with begin := 0, prev := set p1.prev 0 none, size := 0 }, by simp only [clear, e1], ?_⟩
+  have nz : ∀ x ∈ xs.reverse ++ fs, x ≠ 0 := by
+    intro x hx
+    simp only [List.mem_append, List.mem_reverse] at hx
+    rcases hx with hx | hx
+    · exact seg_ne_zero p xs 0 none h.seg x hx
+    · exact freechain_ne_zero p fs _ h.fr x hx
+  have perm : (xs.reverse ++ fs).Perm (xs ++ fs) := (List.reverse_perm xs).append_right fs
+  refine ⟨trivial, ?_, rfl, ?_, perm.nodup_iff.2 h.nd, ?_, ?_, ?_, rfl, ?_, ?_⟩
+  · show set p1.prev 0 none 0 = none
+    rw [set_same]
+  · refine freechain_congr p1 _ _ _ ?_ e2
+    intro x hx
+    show set p1.prev 0 none x = p1.prev x
+    rw [set_ne _ _ _ _ (nz x hx)]
+  · simp [LState.clear]
+  · simp only [LState.clear, LState.ids, h.nodes, h.free]
+    simp [List.map_reverse]
+  · show p1.nblocks = _
+    rw [e4]; exact h.nb
+  · intro x hx
+    show x ≤ 4 * p1.nblocks
+    rw [e4]; exact h.bound x (perm.mem_iff.1 hx)
+  · show (xs.reverse ++ fs).length = 4 * p1.nblocks
+    rw [e4, perm.length_eq]; exact h.cnt
+
+/-- one operation of a history: the heap and the chain model accept the same operations and stay related -/
+theorem step_rep (p : PList) (xs fs : List Nat) (s : LState) (h : Rep p xs fs s) (op : POp) :
+    (step p op = none ∧ stepChain s op = none) ∨
+    ∃ p' s' xs' fs', step p op = some p' ∧ stepChain s op = some s' ∧ Rep p' xs' fs' s' := by
+  have hsize : s.size = xs.length := by simp [LState.size, h.nodes]
+  cases op with
+  | insert k v =>
+    by_cases hk : k ≤ xs.length
+    · right
+      obtain ⟨p', item, fs', e1, e2, _⟩ := insert_rep p xs fs s h k hk v
+      have hw := walk_seg p k xs none h.seg hk
+      rw [← h.beg] at hw
+      refine ⟨p', (s.insertRaw k v).1, _, fs', ?_, ?_, e2⟩
+      · simp only [step, h.sz, hk, if_true, hw, e1, Option.map_some]
+      · simp [stepChain, LState.insert, hsize, hk]
+    · left
+      exact ⟨by simp [step, h.sz, hk], by simp [stepChain, LState.insert, hsize, hk]⟩
+  | remove k =>
+    by_cases hk : k < xs.length
+    · right
+      have hx : xs = xs.take k ++ xs[k] :: xs.drop (k + 1) := by
+        rw [List.getElem_cons_drop, List.take_append_drop]
+      have h' : Rep p (xs.take k ++ xs[k] :: xs.drop (k + 1)) fs s := by rw [← hx]; exact h
+      obtain ⟨p', e1, e2⟩ := unlink_rep p (xs.take k) (xs.drop (k + 1)) fs xs[k] s h'
+      have hw := walk_seg p k xs none h.seg (Nat.le_of_lt hk)
+      rw [← h.beg] at hw
+      have hd : (xs.drop k).headD 0 = xs[k] := by
+        rw [List.drop_eq_getElem_cons hk]; rfl
+      have hlen : (xs.take k).length = k := by simp; omega
+      rw [hlen] at e2
+      have hn : s.nodes[k]? = some (xs[k] - 1, p.val xs[k]) := by
+        rw [h.nodes]; simp [hk]
+      refine ⟨p', _, _, _, ?_, ?_, e2⟩
+      · simp only [step, h.sz, hk, if_true, hw, hd, e1, Option.map_some]
+      · simp [stepChain, LState.remove, hn]
+    · left
+      have hn : s.nodes[k]? = none := by rw [h.nodes]; simp; omega
+      exact ⟨by simp [step, h.sz, hk], by simp [stepChain, LState.remove, hn]⟩
+  | clear =>
+    right
+    obtain ⟨p', e1, e2⟩ := clear_rep p xs fs s h
+    exact ⟨p', s.clear, _, _, e1, rfl, e2⟩
+
+theorem run_rep (ops : List POp) : ∀ (p : PList) (xs fs : List Nat) (s : LState), Rep p xs fs s →
+    ∃ xs' fs', Rep (run p ops) xs' fs' (runChain s ops) := by
+  induction ops with
+  | nil => intro p xs fs s h; exact ⟨xs, fs, h⟩
+  | cons op ops ih =>
+    intro p xs fs s h
+    rcases step_rep p xs fs s h op with ⟨e1, e2⟩ | ⟨p', s', xs', fs', e1, e2, h'⟩
+    · simp only [run, runChain, e1, e2]; exact ih p xs fs s h
+    · simp only [run, runChain, e1, e2]; exact ih p' xs' fs' s' h'
+
+end Nstd.Seq.Ptr
